@@ -3,6 +3,7 @@ from . import handlers_common as hc
 from . import handlers_native as hn
 
 PROP = "C05"
+ASSUMPTION_CHECKS = ['A-AV']
 MIN_OBLIGATIONS = 50
 TRUSTED = hc.HANDLER_TRUSTED
 ASSUMPTIONS = hc.HANDLER_ASSUMPTIONS
